@@ -107,10 +107,30 @@ def d1_order(facts, rep):
 
 
 def d2_lazy(facts, rep):
+    # the split site: the placement new into the node's zombie_space inside start_reduce::execute, or the call (in execute) of a
+    # helper that constructs there
+    ctor_fns = {}
+    for g in facts.fns.values():
+        if not g.q.startswith(D1):
+            continue
+        ns = [(p, s_, nd) for p, s_, nd in g.stmt_elems(('new',)) if nd.get('pl') and
+              any(g.nodes[x].get('k') == 'member' and g.nodes[x].get('n') == 'zombie_space' for a in nd['pl'] for x in g.subtree(a))]
+        if ns:
+            ctor_fns[g.u] = (g, ns)
+    if not ctor_fns:
+        raise AnalysisBroken('no placement new into reduction_tree_node::zombie_space found (the lazy body split)')
     for fn in facts.get(D1 + 'start_reduce::execute'):
-        news = [(p, s, nd) for p, s, nd in fn.stmt_elems(('new',)) if nd.get('pl')]
-        if not news:
-            raise AnalysisBroken('start_reduce::execute: placement new of the split body not found')
+        sites = []          # (position in execute, constructing function, new node)
+        if fn.u in ctor_fns:
+            for p, s_, nd in ctor_fns[fn.u][1]:
+                sites.append((p, fn, nd))
+        for pos, s_, node, d in calls(fn):
+            if node.get('fn') in ctor_fns:
+                g, ns = ctor_fns[node['fn']]
+                for p2, s2, nd2 in ns:
+                    sites.append((pos, g, nd2))
+        if not sites:
+            raise AnalysisBroken('start_reduce::execute: the lazy split of the body (placement new / helper call) not found')
         e_right = edges_where(fn, lambda a, truth: truth and fn.n(fn.strip(a)).get('k') == 'member' and fn.n(fn.strip(a))['n'] == 'is_right_child')
 
         def ref2(a, truth):
@@ -123,15 +143,17 @@ def d2_lazy(facts, rep):
                      has_acquire(atomic_op(fn, fn.strip(x))['order'] or 0) for x in sides)
             return has2 and ld
         e_ref = edges_where(fn, ref2)
-        for p, s, nd in news:
+        for p, g, nd in sites:
             ok1, w1 = dominated_by_edges(fn, p, e_right)
             ok2, w2 = dominated_by_edges(fn, p, e_ref)
             rep.ob('D2', 'K4', fn, 'the body is split lazily only by a right child whose sibling still runs (acquire load == 2)', ok1 and ok2,
                    'a body can be split although the left sibling already finished, or by the left child: partial results are joined '
                    'in the wrong order / to the wrong body: ' + (w1 or w2), ln=nd['ln'])
-            ca = fn.n(nd.get('init', -1)).get('a', [])
-            ok3 = len(ca) >= 1 and mentions_member(fn, ca[0], 'my_body')
-            rep.ob('D2', 'K10', fn, 'the new right body is split from the task\'s current (left) body', ok3, 'split source is not *my_body')
+            ca = g.n(nd.get('init', -1)).get('a', [])
+            ok3 = len(ca) >= 1 and (mentions_member(g, ca[0], 'my_body') or mentions_member(g, ca[0], 'left_body'))
+            rep.ob('D2', 'K10', fn, 'the new right body is split from the task\'s current (left) body', ok3, 'split source is not *my_body / the left body of the node')
+    from rules.C03 import zombie_pairing
+    zombie_pairing(facts, rep, 'D2')
     rep.floor('D2', 2, 'lazy split guard')
 
 
